@@ -9,7 +9,7 @@ META = dict(
     category='model_checking',
     engine='GitSync',
     technique='TLA+ spec GitSync (state machine JjSet/JjDelete/GitSet/GitDelete/Import/Export over local bookmark, last-seen git ref, @git ref, actual Git ref): TLC exhaustive reachability with step contracts + TLC-generated behaviours replayed on a Git-backed repo with the real git CLI (S->I) + seeded random histories recorded and judged by TLC (I->S)',
-    text='TLC explores every reachable state of the model (2 bookmarks, chain+fork of 3 commits quick / 4 commits thorough, one commit initially unknown to jj, unbounded depth) and checks on every transition the contracts ImportOK (one-sided Git change propagates incl. deletion, same change on both sides is kept, two-sided change loses no side: same signed multiset or fast-forward), ExportOK (a ref changed in Git since jj last saw it is never overwritten, one-sided jj change reaches Git, failures are reported exactly), Import;Export convergence and import idempotence. The real import_refs/export_refs are then bound both ways: every transition of a small model (1 bookmark, depth 4 quick / 5 thorough, plus 2 bookmarks thorough) and TLC-simulated 6-step behaviours are replayed with Git-side edits done by the real `git update-ref`, and seeded random histories (3 bookmarks, 5 commits, up to 10 steps, git.abandon-unreachable-commits on and off) are recorded; TLC judges every observed step against the same contracts from the observed pre-state. Exhaustive on the model, sampled on longer histories.',
+    text='TLC explores every reachable state of the model (2 bookmarks, chain+fork of 3 commits quick / 4 commits thorough, one commit initially unknown to jj, unbounded depth) and checks on every transition the contracts ImportOK (one-sided Git change propagates incl. deletion, same change on both sides is kept, two-sided change loses no side: same signed multiset or fast-forward), ExportOK (a ref changed in Git since jj last saw it is never overwritten, one-sided jj change reaches Git, failures are reported exactly), Import;Export convergence and import idempotence. The real import_refs/export_refs are then bound both ways: every transition of a small model (1 bookmark, depth 5 quick / 6 thorough, plus 2 bookmarks depth 4 thorough) and TLC-simulated 6-step behaviours are replayed with Git-side edits done by the real `git update-ref`, and seeded random histories (3 bookmarks, 5 commits, up to 10 steps, git.abandon-unreachable-commits on and off) are recorded; TLC judges every observed step against the same contracts from the observed pre-state. Exhaustive on the model, sampled on longer histories.',
     note='Names without file/directory clashes, bookmarks only (no tags), one workspace-less repo with an internal Git backend; concurrent processes are not modelled (each action is atomic). Commits that exist only in Git are created with gix in the object store. Trusted: TLC, the projection in harness/jjconf/src/bin/gitsync/sync.rs (refs read from ref files and confirmed by `git update-ref --stdin verify` at every step and by `git for-each-ref` per repository). Exact conflict shape is compared with the transcription of merge_ref_targets as divergence only.',
     design='4 C34',
 )
@@ -84,7 +84,7 @@ def run(ctx):
                                       workers=1, timeout=300)) for bug, inv in NEG]
         # 2. S->I: every transition of a small model + simulated longer behaviours
         f_gen = [(g, ex.submit(vf.tlc_generate, "MC_GitSync", g, timeout=900)) for g in gens]
-        f_sim = ex.submit(vf.tlc_generate, "MC_GitSync", "MC_GitSync_gen_sim", simulate="num=%d" % ctx.q(25, 200),
+        f_sim = ex.submit(vf.tlc_generate, "MC_GitSync", "MC_GitSync_gen_sim", simulate="num=%d" % ctx.q(25, 150),
                           seed=ctx.seed, timeout=900)
         ctx.add_mc(f_mc.result(), cfg)
         for bug, inv, f in f_neg:
@@ -106,7 +106,7 @@ def run(ctx):
     K = 8
     jobs = [["sync", "--replay", behf, "--shard", i, "--of", K, "--out", ctx.path("replay%d.ndjson" % i)] for i in range(K)]
     # 3. I->S: seeded random histories
-    n_rand = ctx.q(400, 6000)
+    n_rand = ctx.q(800, 4000)
     jobs += [["sync", "--random", n_rand // K, "--seed", ctx.seed * 1000 + i, "--maxsteps", 10, "--nb", 3,
               "--out", ctx.path("random%d.ndjson" % i)] for i in range(K)]
     shards(ctx, jobs)
@@ -168,7 +168,7 @@ def run(ctx):
     ctx.cov["exhaustive"] = True
     ctx.cov["exhaustive_domain"] = ("model: all reachable states, 2 bookmarks, %d commits (chain+fork, one Git-only); "
                                     "binding: every transition of the 1-bookmark model up to depth %d%s" % (
-                                        ctx.q(3, 4), ctx.q(4, 5), ctx.q("", " and of the 2-bookmark model up to depth 4")))
+                                        ctx.q(3, 4), ctx.q(5, 6), ctx.q("", " and of the 2-bookmark model up to depth 4")))
     ctx.cov["rule"] = ("steps = model actions executed on the real repository and judged by TLC; non-trivial = an Import where "
                        "some bookmark changed on both sides since the last synchronisation, or an Export with a bookmark whose "
                        "Git ref moved underneath / a conflicted bookmark; distinct by (pre-state, action, post-state)")
